@@ -43,6 +43,10 @@ var wallPrograms = []string{
 	"(try (deref bgf) (catch e (deref bgspin)) (finally (deref bgf)))",
 	"(map deref [bgf bgspin])",
 	"(let [f (future (deref bgf))] (deref f))",
+	// a future started by the evaluation must stop with it (its body runs under a context derived from the creator's)
+	"(do (future (tick 0)) (spin 0))",
+	"(do (def tf (future (tick 0))) (sleep 100000))",
+	"(try (do (future (tick 0)) (sleep 100000)) (catch e (spin 0)))",
 }
 
 const wallDefs = `(do
@@ -50,6 +54,8 @@ const wallDefs = `(do
  (def deep (fn [n] (if (< n 1) 0 (+ 1 (deep (- n 1))))))
  (def mspin (fn [n] (cond false 0 true (mspin (+ n 1)))))
  (defmacro mrec (fn [n] (list 'mrec (+ n 1))))
+ (def ticks (atom 0))
+ (def tick (fn [n] (do (swap! ticks inc) (tick (+ n 1)))))
  (def bgf (future (sleep 100000)))
  (def bgspin (future (spin 0)))
  nil)`
@@ -124,6 +130,22 @@ func (e *cancelWallEngine) run(payload string) string {
 		}
 		if over > bound {
 			return fmt.Sprintf("late\t!EVAL returned %v after the context ended (bound %v)", over.Round(time.Millisecond), bound)
+		}
+		if strings.Contains(wallPrograms[p], "(tick ") {
+			// the ticking future must have stopped as well
+			read := func() string {
+				v, err := lisp.EVAL(context.Background(), ls(sy("deref"), sy("ticks")), env)
+				if err != nil {
+					return "?"
+				}
+				return render(v)
+			}
+			time.Sleep(300 * time.Millisecond)
+			t1 := read()
+			time.Sleep(200 * time.Millisecond)
+			if t2 := read(); t1 != t2 {
+				return fmt.Sprintf("future-still-running\t!a future started by the evaluation is still running after its creator's context ended (ticks %s → %s)", t1, t2)
+			}
 		}
 		return "ok"
 	case <-time.After(after + bound):
